@@ -18,7 +18,7 @@ COQ_FILES = ["Base/FM.v", "Base/Sys.v", "Base/Gens.v", "Poly/PolyOps.v", "Base/S
 
 TRUSTED = [
     "Coq 8.16.1 kernel (coqc); vm_compute only in the closed witnesses (bhrz03_lgo_needs_growth, bhrz03_compare_not_a_refinement); no native_compute",
-    "axioms: Coq.Logic.Classical_Prop.classic in certified_widening_terminates only (its constructive twin certified_widening_terminates_constructive and every other theorem are closed under the global context)",
+    "axioms: none in Properties_C08.v (every theorem prints 'Closed under the global context'); the classical corollary Generic.certified_widening_terminates_classic (not an audited obligation) uses Coq.Logic.Classical_Prop.classic",
     "extraction: Require Extraction + ExtrOcamlBasic only; Z, positive, nat, Q stay the extracted inductive types; OCaml 4.13.1 ocamlopt",
     "hand-written, unverified glue: harness/run_widen.cc + vh_common.hh (script interpreter, construction routes, printers; reads the private certificate fields), ocaml/judge_widen.ml + wzutil.ml (parsing, dispatch, bookkeeping), tools/gen_widen.py, tools/translate_cert.py (regex over the compare ladders), tools/props/C08.py; g++ 12.2, GMP",
     "modelled rather than verified: PPL's widening algorithms are not translated; each result they print is judged by functions proved exact for all inputs; the certificate classes ARE transcribed (Widen/Cert.v) and tied by CertFacts.v + the compare-tie checks",
@@ -116,10 +116,11 @@ def info_of(f):
             site = parts[0] + "_widening_assign+" + site
     elif parts[0] == "ps":
         site = "Pointset_Powerset::is_cert_multiset_stabilizing"
-    elif parts[0] in ("H79", "BHRZ03"):
-        site = parts[0] + ("_widening_assign" if len(parts) == 2 else "_extrapolation_assign/" + parts[1])
+    elif parts[0] in ("input", "route", "hull"):
+        site = "/".join(parts[:2]) if parts[0] == "route" else parts[0]
     else:
-        site = parts[0]
+        # H79 | BHRZ03 on polyhedra; BDS.BHMZ05, OCT.CC76, BOX.CC76, ... on shapes and boxes
+        site = parts[0] + ("_widening_assign" if len(parts) == 2 else "_extrapolation_assign/" + parts[1])
     info = {"site": site, "kind": parts[-1] if parts[0] not in ("cert", "ps") else "/".join(parts[1:]), "obligation": f.kind}
     if cond:
         info["cond"] = cond
@@ -164,7 +165,7 @@ def shrink_case(case, fline):
 def run(chk):
     chk.rule = ("ascending chains y_0 <= y_1 <= ... (<= 12 elements, dimension 1-3, C and NNC) from tools/gen_widen.py (seeded), growing by one vertex / ray / "
                 "line / closure point or one loosened, dropped, split or closed bound per step, in five families (vertex, climb, parabola, cone, bounds); for "
-                "each of H79 and BHRZ03 the iteration x_{k+1} = (x_k hull y_{k+1}) W x_k is run on the real library, both operands of every step additionally "
+                "each of H79 and BHRZ03 (and, on 30% of the cases, BHMZ05 / H79 / CC76 on BD shapes, octagons and rational boxes over chains of bounds) the iteration x_{k+1} = (x_k hull y_{k+1}) W x_k is run on the real library, both operands of every step additionally "
                 "rebuilt through construction routes (constraints / minimized constraints / generators / minimized generators / redundant rows / add_constraint "
                 "and add_generator sequences / pending rows); a case is distinct by its script text; a widening step is non-trivial when the verified oracle "
                 "finds the result different from the previous iterate (counted as step:*:changed)")
@@ -172,7 +173,7 @@ def run(chk):
     chk.assumptions += [
         "the value of an object is read from the constraints() the library prints for a copy of it (that constraints() and generators() agree is C01's obligation)",
         "the per-step hypotheses of certified_widening_terminates (upper bound, certificate decrease on value-changing steps, certificate a function of the value) are DECIDED on each step of the sampled chains, not proved for PPL's algorithms; dimension <= 3, chains <= 12",
-        "weakly relational shapes, boxes and grids: their widenings are not run by this check (only the generic theorems and the Grid_Certificate order apply to them)",
+        "BD_Shape<mpq_class> (BHMZ05, H79, CC76), Octagonal_Shape<mpq_class> (BHMZ05, CC76) and Rational_Box (CC76): upper bound, value-dependence, argument unchanged, tokens and limited extrapolations are judged the same way; they have no certificate class, so no per-step certificate check (only the generic theorems apply); grids and the powerset widenings themselves are not run (Grid_Certificate and the multiset order are covered on the proof side, the multiset order also by the ps tie)",
     ]
     # ---- facts from the source, proofs ----
     try:
@@ -240,9 +241,9 @@ def run(chk):
     chk.extra["status_vectors_of_widened_receivers"] = len([k for k in cov if k.startswith("flagsx:")])
     chk.extra["certificates_compared"] = cov.get("cmp", 0)
     chk.extra["multiset_comparisons"] = cov.get("ps", 0)
-    chk.extra["families"] = dict(collections.Counter(re.search(r"family=(\w+)", c[1]).group(1) for c in cases if len(c) > 1 and "family=" in c[1]))
+    chk.extra["families"] = dict(collections.Counter(re.search(r"family=([\w-]+)", c[1]).group(1) for c in cases if len(c) > 1 and "family=" in c[1]))
     for c in cases:
-        steps = [l for l in c if l.startswith("#! step")]
+        steps = [l for l in c if l.startswith("#! s")]
         if steps:
             chk.nontrivial.add(hash("\n".join(c)))
     for c in cases[ncorpus:ncorpus + 3]:
